@@ -5,6 +5,7 @@ import ast
 
 from ..engine.absval import Lin, Sym, AbsStr, Opaque, AObj, AClass, AFunc, Token, INF
 from ..engine.absint import CannotDecide, Interp, explore, RaiseEx
+from ..engine import notesdom as nd
 from ..engine.loader import AnalysisError, short
 from ..engine.stubs import log_of, recorder, stub, record_class, run_method
 
@@ -536,6 +537,62 @@ def rule_constructors(ctx, ci):
         elif [e[0] for e in log][0] != "NoteContainer.empty":
             ok, why = False, "does not empty the container first"
     ctx.check(ok, R, "from_interval_shorthand", fi.where(), "NoteContainer.from_interval_shorthand", why)
+    # ... and with the real Note / interval code: the start note and the note the interval leads to, by pitch
+    SIZES = {"1": 0, "b2": 1, "2": 2, "b3": 3, "3": 4, "4": 5, "#4": 6, "5": 7, "b6": 8, "6": 9, "b7": 10, "7": 11, "bb2": 0, "#1": 1}
+    bad = []
+    for startname, startpitch in (("C", 48), ("B#", 60), ("Cb", 47), ("F#", 54), ("C-2", 24), ("Bb-5", 70)):
+        def go(it, startname=startname):
+            out = []
+            for sh_, size in sorted(SIZES.items()):
+                for up_ in (True, False):
+                    c = it.call(AClass(ci), [], {}, None)
+                    try:
+                        r = it.call_method(c, "from_interval_shorthand", [startname, sh_, up_], {}, None)
+                        ns = it.getattr(c, "notes")
+                        out.append((sh_, up_, "return", [nd.pitch_number(n.attrs.get("name"), n.attrs.get("octave")) for n in ns]))
+                    except RaiseEx as r_:
+                        out.append((sh_, up_, "raise", r_.exc))
+            return out
+        try:
+            ps = explore(lambda ch: Interp(repo, ch, max_depth=60), go)
+        except CannotDecide as e:
+            raise AnalysisError("from_interval_shorthand(%r, ..): %s" % (startname, e))
+        if len(ps) != 1 or ps[0].kind != "return":
+            bad.append((startname, [(p.kind, short(repr(p.value), 60)) for p in ps]))
+            continue
+        for sh_, up_, kind, v in ps[0].value:
+            other = startpitch + SIZES[sh_] if up_ else startpitch - SIZES[sh_]
+            want = sorted({startpitch, other})
+            if kind != "return" or v != want:
+                bad.append(("from_interval_shorthand(%r, %r, %s)" % (startname, sh_, up_), kind, v, "expected the pitches", want))
+    # a bare name into an empty container is that name in octave 4, whatever it is called (Cb-4 is 47, B#-4 is 60)
+    bad0 = []
+
+    def go0(it):
+        out = []
+        for name in ("C", "Cb", "Cbb", "B#", "B##", "E#", "Fb", "G"):
+            c1 = it.call(AClass(ci), [name], {}, None)
+            c2 = it.call(AClass(ci), [], {}, None)
+            it.call_method(c2, "add_note", [name], {}, None)
+            c3 = it.call(AClass(ci), [["A", "C"]], {}, None)
+            it.call_method(c3, "remove_notes", [["A", "C"]], {}, None)
+            it.call_method(c3, "add_notes", [[name]], {}, None)
+            for label, c in (("NoteContainer(%r)" % name, c1), ("add_note(%r) to an empty container" % name, c2), ("add_notes([%r]) to an emptied container" % name, c3)):
+                ns = it.getattr(c, "notes")
+                out.append((label, name, [(n.attrs.get("name"), n.attrs.get("octave")) for n in ns]))
+        return out
+    try:
+        ps0 = explore(lambda ch: Interp(repo, ch, max_depth=60), go0)
+    except CannotDecide as e:
+        raise AnalysisError("a bare name into an empty container: %s" % e)
+    if len(ps0) != 1 or ps0[0].kind != "return":
+        bad0.append(("outcome", [(p.kind, short(repr(p.value), 80)) for p in ps0]))
+    else:
+        bad0 = [(label, got) for label, name, got in ps0[0].value if got != [(name, 4)]]
+    ctx.check(not bad0, R, "first-note[octave 4]", repo.find_method(ci, "add_note").where(), "a bare name placed in an empty container, 8 names x 3 ways",
+              "%d are not the name in octave 4: e.g. %s" % (len(bad0), bad0[:3]))
+    ctx.check(not bad, R, "from_interval_shorthand[pitches]", fi.where(), "from_interval_shorthand(start, shorthand, up) for 6 start notes x 14 shorthands x both directions",
+              "%d containers do not hold the start note and the note the interval leads to: e.g. %s" % (len(bad), bad[:2]))
 
 
 def rule_consonance(ctx, ci):
